@@ -214,9 +214,15 @@ func (c *FileCache[MetadataT]) Cache(key CacheKey, data io.Reader, expires time.
 	}
 
 	c.mu.Lock()
+	old, replaced := c.entriesMetadata[key]
 	c.entriesMetadata[key] = meta
 	c.mu.Unlock()
 
+	if replaced {
+		// Overwriting an existing key must not count the entry (or its bytes) twice.
+		decrementCacheEntries()
+		decrementCacheSize(&c.byteSize, old.Size)
+	}
 	incrementCacheEntries()
 	addCacheSize(&c.byteSize, fileSize)
 
